@@ -2,10 +2,70 @@
 aurel.reading functions (C12, C13, C02 argument contracts).  Content of datasets is an opaque tag."""
 
 
+def shape_of(x):
+    return tuple(getattr(x, 'shape', ()))
+
+
+def dtype_of(x):
+    """'f' / 'i' kind of an opaque dataset value (tags carry .dtype; bare integers are 'i')"""
+    d = getattr(x, 'dtype', None)
+    if d is not None:
+        return d
+    return 'i' if type(x).__name__ in ('int', 'SInt', 'SIntInt') else 'f'
+
+
 class FakeDataset:
     def __init__(self, data, attrs=None):
         self.data = data
         self.attrs = attrs or {}
+
+
+class DatasetView:
+    """what f[name] returns: shape, attrs, and assignment in place - which, as in h5py, keeps the dataset's dtype (a value
+    of another kind is converted: marked on the tag with .cast_from)"""
+
+    def __init__(self, ds):
+        self._ds = ds
+
+    @property
+    def data(self):
+        return self._ds.data
+
+    @property
+    def attrs(self):
+        return self._ds.attrs
+
+    @property
+    def shape(self):
+        return shape_of(self._ds.data)
+
+    @property
+    def dtype(self):
+        return dtype_of(self._ds.data)
+
+    def __getitem__(self, idx):
+        return self._ds.data
+
+    def __setitem__(self, idx, value):
+        if shape_of(value) != self.shape:
+            raise TypeError("Can't broadcast to the dataset's shape")
+        have = dtype_of(self._ds.data)
+        if dtype_of(value) != have and hasattr(value, 'converted'):
+            value = value.converted(have)
+        self._ds.data = value
+
+    # opaque tags are tuples: let comparisons / indexing of the underlying value through
+    def __iter__(self):
+        return iter(self._ds.data)
+
+    def __len__(self):
+        return len(self._ds.data)
+
+    def __eq__(self, o):
+        return self._ds.data == (o.data if isinstance(o, DatasetView) else o)
+
+    def __hash__(self):
+        return hash(self._ds.data)
 
 
 class FakeFile:
@@ -30,7 +90,7 @@ class FakeFile:
         return k in self.d
 
     def __getitem__(self, k):
-        return self.d[k].data
+        return DatasetView(self.d[k])
 
     def __delitem__(self, k):
         del self.d[k]
@@ -104,7 +164,13 @@ class FakeNP:
 
     @staticmethod
     def array(x):
+        if isinstance(x, DatasetView):
+            return x.data
         return Arr(x) if isinstance(x, list) else x      # dataset tags (tuples) are opaque
+
+    @staticmethod
+    def shape(x):
+        return shape_of(x.data if isinstance(x, DatasetView) else x)
 
     @staticmethod
     def sort(x):
